@@ -71,6 +71,38 @@ theorem cross_spec (chunks : List (List Row)) (R : List Row) :
   unfold crossImpl crossSpec
   exact flatten_flatten_map _ chunks
 
+/-- `FROM a, b, c` is `(a CROSS JOIN b) CROSS JOIN c` (LoadView folds the list to the left); the grouping does not
+    matter: the cross product is associative, records and order -/
+theorem cross_assoc (A B C : List Row) : crossSpec (crossSpec A B) C = crossSpec A (crossSpec B C) := by
+  unfold crossSpec
+  have L1 : ∀ (a : Row) (X : List Row),
+      (X.map (fun r => a ++ r)).flatMap (fun l => C.map (fun r => l ++ r))
+        = (X.flatMap (fun l => C.map (fun r => l ++ r))).map (fun r => a ++ r) := by
+    intro a X
+    induction X with
+    | nil => rfl
+    | cons x xs ih =>
+      simp only [List.map_cons, List.flatMap_cons, List.map_append, ih, List.map_map]
+      congr 1
+      apply List.map_congr_left
+      intro c _
+      simp [Function.comp, List.append_assoc]
+  induction A with
+  | nil => rfl
+  | cons a as ih => simp only [List.flatMap_cons, List.flatMap_append, ih, L1]
+
+/-- the table of a query without FROM (`DUAL`): one record without fields — a cross join with it changes nothing -/
+theorem cross_dual (A : List Row) : crossSpec A [[]] = A ∧ crossSpec [[]] A = A := by
+  unfold crossSpec
+  constructor
+  · induction A with
+    | nil => rfl
+    | cons a as ih =>
+      simp only [List.flatMap_cons, List.map_cons, List.map_nil, List.append_nil, List.singleton_append]
+      simp only [List.map_cons, List.map_nil, List.append_nil] at ih
+      rw [ih]
+  · simp
+
 theorem inner_spec (chunks : List (List Row)) (R : List Row) (c : Cond) :
     innerImpl chunks R c = innerSpec chunks.flatten R c := by
   unfold innerImpl innerSpec
@@ -332,6 +364,48 @@ theorem right_outer_mem_iff (wl : Nat) (L R : List Row) (c : Cond) (x : Row) :
   constructor
   · rintro ⟨r, hr, hx⟩; exact ⟨r, hr, (key r).mp hx⟩
   · rintro ⟨r, hr, hx⟩; exact ⟨r, hr, (key r).mpr hx⟩
+
+/-- three-valued ON conditions: a preserved record is NULL-padded iff NO partner makes the condition TRUE — UNKNOWN
+    counts like FALSE (the keep test of the nested loop is `== ternary.TRUE`, `gen_keep_tests_eq_model`) -/
+theorem outer_join_pads_iff_no_true_match (wr : Nat) (R : List Row) (c : Cond) (l : Row) :
+    (leftSpec wr [l] R c = [l ++ nulls wr] ↔ (∀ r, r ∈ R → c (l ++ r) ≠ .T) ∨ R.filter (fun r => c (l ++ r) = .T) = [nulls wr]) ∧
+    ((∀ r, r ∈ R → c (l ++ r) = .U ∨ c (l ++ r) = .F) → leftSpec wr [l] R c = [l ++ nulls wr]) := by
+  have hblock : leftSpec wr [l] R c =
+      (let m := R.filter (fun r => c (l ++ r) = .T); if m.isEmpty then [l ++ nulls wr] else m.map (fun r => l ++ r)) := by
+    simp [leftSpec]
+  constructor
+  · rw [hblock]
+    cases hm : R.filter (fun r => c (l ++ r) = .T) with
+    | nil =>
+      simp only [List.isEmpty_nil, if_true, true_iff]
+      left
+      intro r hr hT
+      have : r ∈ R.filter (fun r => c (l ++ r) = .T) := List.mem_filter.mpr ⟨hr, by simpa using hT⟩
+      rw [hm] at this; cases this
+    | cons a as =>
+      have ha : a ∈ R ∧ c (l ++ a) = .T := by
+        have : a ∈ R.filter (fun r => c (l ++ r) = .T) := by rw [hm]; exact List.mem_cons_self ..
+        have := List.mem_filter.mp this
+        exact ⟨this.1, by simpa using this.2⟩
+      simp only [List.isEmpty_cons, Bool.false_eq_true, if_false, List.map_cons]
+      constructor
+      · intro h
+        right
+        have h1 : l ++ a = l ++ nulls wr := (List.cons.inj h).1
+        have h2 : as.map (fun r => l ++ r) = [] := (List.cons.inj h).2
+        have : as = [] := by simpa using h2
+        rw [List.append_cancel_left h1, this]
+      · rintro (h | h)
+        · exact absurd ha.2 (h a ha.1)
+        · have := List.cons.inj h
+          rw [this.1, this.2]; rfl
+  · intro hall
+    rw [hblock]
+    have : R.filter (fun r => c (l ++ r) = .T) = [] := by
+      apply List.filter_eq_nil_iff.mpr
+      intro r hr
+      rcases hall r hr with h | h <;> simp [h]
+    simp [this]
 
 /-! ### empty other side, always-true condition (NATURAL join of sources without a common column)
 
@@ -621,6 +695,138 @@ theorem derived_table_column_ambiguous (alias : String) (labels : List String) (
         · exact hother f h)
     · rw [List.countP_append]; omega
 
+/-! ### resolution, characterised: unique / ambiguous / not found
+
+  `hnj`: the reference is qualified, or no field of the header is a flagged join column (every header outside the
+  join's own query: `fix_clears_join_columns`).  With a flagged join column an unqualified reference stops there
+  (`join_column_wins`). -/
+
+/-- an error "ambiguous" iff at least two fields match -/
+theorem resolve_ambiguous_iff (h : List HField) (view : Option String) (name : String)
+    (hnj : view.isSome = true ∨ ∀ f, f ∈ h → f.isJoin = false) :
+    fieldIndex h view name = .error .ambiguous ↔ 2 ≤ h.countP (fieldMatches view (trimSpace name)) := by
+  unfold fieldIndex
+  rw [fieldIndexGo_char view (trimSpace name) h 0 none hnj]
+  cases hc : h.countP (fieldMatches view (trimSpace name)) with
+  | zero => simp
+  | succ n => cases n with
+    | zero => simp
+    | succ m => simp
+
+/-- "does not exist" iff no field matches -/
+theorem resolve_not_exist_iff (h : List HField) (view : Option String) (name : String)
+    (hnj : view.isSome = true ∨ ∀ f, f ∈ h → f.isJoin = false) :
+    fieldIndex h view name = .error .notExist ↔ h.countP (fieldMatches view (trimSpace name)) = 0 := by
+  unfold fieldIndex
+  rw [fieldIndexGo_char view (trimSpace name) h 0 none hnj]
+  cases hc : h.countP (fieldMatches view (trimSpace name)) with
+  | zero => simp
+  | succ n => cases n with
+    | zero => simp
+    | succ m => simp
+
+/-- a reference resolves to field k iff k is the only field that matches it -/
+theorem resolve_unique (h : List HField) (view : Option String) (name : String) (k : Nat)
+    (hnj : view.isSome = true ∨ ∀ f, f ∈ h → f.isJoin = false) :
+    fieldIndex h view name = .ok k ↔
+      (∃ f, h[k]? = some f ∧ fieldMatches view (trimSpace name) f = true) ∧
+      ∀ j g, h[j]? = some g → fieldMatches view (trimSpace name) g = true → j = k := by
+  rw [← countP_one_findIdx]
+  unfold fieldIndex
+  rw [fieldIndexGo_char view (trimSpace name) h 0 none hnj]
+  cases hc : h.countP (fieldMatches view (trimSpace name)) with
+  | zero => simp
+  | succ n => cases n with
+    | zero =>
+      simp only [Nat.zero_add, Except.ok.injEq, true_and]
+      constructor <;> intro hh <;> exact hh.symm
+    | succ m => simp
+
+/-- `t.2`: the first field of that view with that column number; no such field, or a number below 1: not found -/
+theorem field_number_index_spec (h : List HField) (view : String) (number : Int) (k : Nat) :
+    (fieldNumberIndex h view number = .ok k ↔ 1 ≤ number ∧ h.findIdx? (numberMatches view number) = some k) ∧
+    (fieldNumberIndex h view number = .error .notExist ↔ number < 1 ∨ h.findIdx? (numberMatches view number) = none) := by
+  unfold fieldNumberIndex
+  by_cases hn : number < 1
+  · simp [hn]; omega
+  · simp only [hn, if_false, false_or]
+    cases h.findIdx? (numberMatches view number) with
+    | none => simp
+    | some j => simp; omega
+
+/-- `*` lists the table columns, `t.*` those of the view `t`, both in header order and nothing else -/
+theorem star_expansion_spec (h : List HField) (v : String) :
+    (starFields h).Sublist h ∧ (∀ f, f ∈ starFields h ↔ f ∈ h ∧ f.fromTable = true) ∧
+    (viewStarFields h v).Sublist h ∧ (∀ f, f ∈ viewStarFields h v ↔ f ∈ h ∧ f.fromTable = true ∧ f.view = v) := by
+  refine ⟨List.filter_sublist, ?_, List.filter_sublist, ?_⟩
+  · intro f; simp [starFields, List.mem_filter]
+  · intro f; simp [viewStarFields, List.mem_filter]
+
+/-- NATURAL: the joined names are the left column names, in header order, that the right side knows; a right side that
+    knows a name twice is an error -/
+theorem natural_names_spec (lh rh : List HField) (names : List String) (hn : naturalNames lh rh = .ok names) :
+    names = (lh.filter (fun f => match fieldIndex rh none f.name with | .ok _ => true | .error _ => false)).map (fun f => f.name) ∧
+    ∀ f, f ∈ lh → fieldIndex rh none f.name ≠ .error .ambiguous := by
+  induction lh generalizing names with
+  | nil => simp only [naturalNames, Except.ok.injEq] at hn; subst hn; exact ⟨rfl, fun _ h => by cases h⟩
+  | cons f fs ih =>
+    simp only [naturalNames] at hn
+    cases hr : fieldIndex rh none f.name with
+    | error e =>
+      cases e <;> simp only [hr] at hn
+      · cases hn
+      all_goals
+        obtain ⟨h1, h2⟩ := ih names hn
+        refine ⟨by simp [List.filter_cons, hr, h1], ?_⟩
+        intro g hg
+        rcases List.mem_cons.mp hg with rfl | hg
+        · rw [hr]; simp
+        · exact h2 g hg
+    | ok i =>
+      simp only [hr] at hn
+      cases hrest : naturalNames fs rh with
+      | error e => simp [hrest] at hn
+      | ok ns =>
+        simp only [hrest, Except.ok.injEq] at hn
+        subst hn
+        obtain ⟨h1, h2⟩ := ih ns hrest
+        refine ⟨by simp [List.filter_cons, hr, ← h1], ?_⟩
+        intro g hg
+        rcases List.mem_cons.mp hg with rfl | hg
+        · rw [hr]; simp
+        · exact h2 g hg
+
+/-- USING / NATURAL: every name is one column on the left and one on the right, each found as an unqualified reference -/
+theorem using_pairs_sound (lh rh : List HField) (names : List String) (pairs : List (Nat × Nat))
+    (hp : usingPairs lh rh names = .ok pairs) :
+    pairs.length = names.length ∧
+    ∀ (k : Nat) (n : String) (p : Nat × Nat), names[k]? = some n → pairs[k]? = some p →
+      fieldIndex lh none n = .ok p.1 ∧ fieldIndex rh none n = .ok p.2 := by
+  induction names generalizing pairs with
+  | nil => simp only [usingPairs, Except.ok.injEq] at hp; subst hp; simp
+  | cons n ns ih =>
+    simp only [usingPairs] at hp
+    cases hl : fieldIndex lh none n with
+    | error e => simp [hl] at hp
+    | ok li =>
+      cases hr : fieldIndex rh none n with
+      | error e => simp [hl, hr] at hp
+      | ok ri =>
+        cases hrest : usingPairs lh rh ns with
+        | error e => simp [hl, hr, hrest] at hp
+        | ok ps =>
+          simp only [hl, hr, hrest, Except.ok.injEq] at hp
+          subst hp
+          obtain ⟨h1, h2⟩ := ih ps hrest
+          refine ⟨by simp [h1], ?_⟩
+          intro k m p hk hpk
+          cases k with
+          | zero =>
+            simp only [List.getElem?_cons_zero, Option.some.injEq] at hk hpk
+            subst hk; subst hpk
+            exact ⟨hl, hr⟩
+          | succ k => exact h2 k m p (by simpa using hk) (by simpa using hpk)
+
 /-! ## which object a FROM name denotes: CTE over temporary table over file -/
 
 theorem cte_shadows_temp_and_file (ctes temps : List String) (n : String) (h : nameIn ctes n = true) :
@@ -866,7 +1072,10 @@ theorem view_star_skips_join_columns (w : Nat) (pairs : List (Nat × Nat)) (h : 
     (f : HField) (hf : f ∈ viewStarFields (usingHeader w pairs h) v) : f ∈ h ∧ f.view = v := by
   unfold viewStarFields at hf
   obtain ⟨hm, hvw⟩ := List.mem_filter.mp hf
-  have hvw' : f.view = v := by simpa using hvw
+  have hvw' : f.view = v := by
+    have := hvw
+    simp only [Bool.and_eq_true, beq_iff_eq] at this
+    exact this.2
   refine ⟨?_, hvw'⟩
   unfold usingHeader at hm
   rcases List.mem_append.mp hm with hj | hr
@@ -955,6 +1164,19 @@ theorem gen_fieldIndex_eq_model (h : List HField) (view : Option String) (name :
     fieldIndexBy Gen.fieldIndexBody Gen.fieldIndexPost h (viewStr view) name = fieldIndex h view name := by
   unfold fieldIndexBy fieldIndex
   exact gen_fieldIndex_loop view hv (trimSpace name) h 0 none
+
+/-- `Header.FieldNumberIndex` as it stands: its guard and its match test are the model's, and its shape is "return the
+    first field that matches" — hence the model's `fieldNumberIndex` -/
+theorem gen_fieldNumberIndex_eq_model (view : String) (number : Int) (f : HField) :
+    Gen.fieldNumberGuard number = decide (number < 1) ∧ Gen.fieldNumberMatches view number f = numberMatches view number f ∧
+    Gen.fieldNumberIndexShape = Ref.fieldNumberIndexShape := ⟨rfl, rfl, rfl⟩
+
+/-- the loop of `ContainsObject` over computed columns passes over exactly the fields the model's `identMatches`
+    rejects (the first remaining one is the answer: `containsIdent` = `findIdx?`) -/
+theorem gen_containsObject_eq_model (eqId : String → String → Bool) (column : String) (f : HField) :
+    identMatches eqId column f = !(Gen.containsObjectSkips eqId column f) := by
+  unfold identMatches Gen.containsObjectSkips
+  cases f.fromTable <;> cases (f.identifier == "") <;> cases eqId f.identifier column <;> rfl
 
 /-- what stands around the loop (taking `view` / `column` from the reference, `idx := -1`), and the callers
     `SearchIndex`, `ContainsObject`, `Header.Update`, are the reviewed statements -/
@@ -1067,13 +1289,13 @@ example : recursiveImpl (fun g => g) 5 [[cI 1]] = none := by decide
 example : recursiveUnionImpl (fun r => r.map (fun p => p.int?))
       (fun g => (g.filter (fun r => r != [cI 3])).map (fun r => if r == [cI 1] then [cI 2] else [cI 3])) 9 [[cI 1], [cI 1]]
     = some [[cI 1], [cI 2], [cI 3]] := by decide
-example (n x : String) : fieldIndex [⟨"c", n, false, []⟩, ⟨"s", n, false, []⟩, ⟨"s", x, false, []⟩] none n = .error .ambiguous := by
+example (n x : String) : fieldIndex [⟨"c", n, false, [], 0, true, ""⟩, ⟨"s", n, false, [], 0, true, ""⟩, ⟨"s", x, false, [], 0, true, ""⟩] none n = .error .ambiguous := by
   simp [fieldIndex, fieldIndexGo, fieldMatches, joinWins, colEq, eqFold]
-example (n : String) : fieldIndex [⟨"", n, true, []⟩, ⟨"c", n, false, []⟩] none n = .ok 0 := by
+example (n : String) : fieldIndex [⟨"", n, true, [], 0, true, ""⟩, ⟨"c", n, false, [], 0, true, ""⟩] none n = .ok 0 := by
   simp [fieldIndex, fieldIndexGo, fieldMatches, joinWins, colEq, eqFold]
 -- `SELECT v AS k, k AS …`: the alias given to v makes the following unqualified k ambiguous
 example (k v : String) (hk : trimSpace k = k) :
-    fieldIndex [⟨"t", k, false, []⟩, ⟨"t", v, false, [k]⟩] none k = .error .ambiguous := by
+    fieldIndex [⟨"t", k, false, [], 0, true, ""⟩, ⟨"t", v, false, [k], 0, true, ""⟩] none k = .error .ambiguous := by
   simp [fieldIndex, fieldIndexGo, fieldMatches, joinWins, colEq, eqFold, hk]
 example (t : String) : tableKind none [t] [t] t = .cte := by simp [tableKind, nameIn, eqFold]
 example : outerImpl .left 1 2 [[[cI 1]], [[cI 2]]] [] (fun _ => .T) = [[cI 1, nullP, nullP], [cI 2, nullP, nullP]] := by decide
